@@ -28,7 +28,7 @@ class Check:
     def note_functions(self, names): self.functions |= set(names)
     def obligation(self, name, engine, verdict, seconds=0.0, nontrivial=True, detail=None):
         """verdict: 'holds' | 'violated' | 'inconclusive' | 'timeout' | 'unexplored'"""
-        if verdict == 'inconclusive' and ('unsupported' in name.lower() or 'budget exhausted' in name.lower()): verdict = 'unexplored'
+        if verdict == 'inconclusive' and ('unsupported' in name.lower() or 'budget exhausted' in name.lower() or '[error:' in name.lower() or 'error=' in name.lower()): verdict = 'unexplored'
         self.obl.append({'name': name, 'engine': engine, 'verdict': verdict, 's': round(seconds, 3), 'nontrivial': bool(nontrivial)})
         self.solver_s += seconds
         if len(self.samples) < 12 and verdict == 'holds' and detail is not None:
@@ -118,7 +118,7 @@ def _sub_run(args):
     except Exception as e:
         from .mirsym.interp import Unsupported
         traceback.print_exc()
-        (sub.unexplored if isinstance(e, Unsupported) else sub.inconclusive).append(('unsupported=' if isinstance(e, Unsupported) else 'error=') + repr(e)[:200])
+        sub.unexplored.append(('unsupported=' if isinstance(e, Unsupported) else 'error=') + repr(e)[:200])
     return {k: getattr(sub, k) for k in ('obl', 'violations', 'known_hits', 'inconclusive', 'unexplored', 'timeouts', 'functions', 'models', 'bounds', 'assumptions', 'samples', 'solver_s', 'queries', 'paths', 'twins', 'unwinding', 'native_replays')}
 
 def run_parallel(chk, modname, fname, args, procs=None):
